@@ -30,14 +30,16 @@ FOCUSED_QUICK = [("MC_Programs_calls6", [None, {"t": "int", "v": 5}]),
                  ("MC_Programs_chains7", [{"t": "int", "v": 5}]),
                  ("MC_Programs_arith5", [None]),
                  ("MC_Programs_seqs4", [{"t": "int", "v": 5}]),
-                 ("MC_Programs_slices7", [LIST4])]
+                 ("MC_Programs_slices7", [LIST4]),
+                 ("MC_Programs_partial5", [{"t": "int", "v": 5}])]
 FOCUSED_THOROUGH = [("MC_Programs_calls8", [None, {"t": "int", "v": 5}]),
                     ("MC_Programs_conds6", [None, {"t": "int", "v": 5}, progs.INPUTS[3]]),
                     ("MC_Programs_chains7", [None, {"t": "int", "v": 5}]),
                     ("MC_Programs_lists5", [None, progs.INPUTS[3], progs.INPUTS[4]]),
                     ("MC_Programs_arith5", [None, {"t": "int", "v": 5}]),
                     ("MC_Programs_seqs5", [None, {"t": "int", "v": 1}]),
-                    ("MC_Programs_slices7w", [LIST4])]
+                    ("MC_Programs_slices7w", [LIST4]),
+                    ("MC_Programs_partial6", [None, {"t": "int", "v": 5}])]
 
 
 def corpus(out, tier, seed, wd, trace=False, extra=None, light=False):
